@@ -92,5 +92,13 @@ Cfg9 ==
      fails |-> f, plan |-> <<"START_ACTIVITY", "STOP_ACTIVITY">>, bodyfails |-> {}, teardown |-> TRUE, quiet |-> {}, once |-> {}] :
       t2 \in {M("enter_RUNNING", 0), M("before_START_ACTIVITY", 0), M("leave_CONFIGURED", 0)},
       c2 \in BOOLEAN, f \in {{"h1"}, {"h1", "h2"}, {}} }
-CfgAll == Cfg2Valid \cup Cfg3Valid \cup Cfg4 \cup Cfg5 \cup Cfg6 \cup Cfg7 \cup Cfg9
+\* a call awaited at a NEGATIVE weight of a later moment at which nothing is triggered with a negative weight
+Cfg10 ==
+  { [trig |-> [h \in {"h1", "h2"} |-> IF h = "h1" THEN M("before_START_ACTIVITY", 0) ELSE M("after_START_ACTIVITY", 0)],
+     await |-> [h \in {"h1", "h2"} |-> IF h = "h1" THEN a1 ELSE M("after_START_ACTIVITY", 0)],
+     crit |-> [h \in {"h1", "h2"} |-> IF h = "h1" THEN c1 ELSE TRUE],
+     fails |-> f, plan |-> <<"START_ACTIVITY", "STOP_ACTIVITY">>, bodyfails |-> {}, teardown |-> TRUE, quiet |-> {}, once |-> {}] :
+      a1 \in {M("leave_CONFIGURED", -1), M("enter_RUNNING", -1), M("after_START_ACTIVITY", -1), M("before_STOP_ACTIVITY", -1), M("after_STOP_ACTIVITY", -1)},
+      c1 \in BOOLEAN, f \in SUBSET {"h1"} }
+CfgAll == Cfg2Valid \cup Cfg3Valid \cup Cfg4 \cup Cfg5 \cup Cfg6 \cup Cfg7 \cup Cfg9 \cup Cfg10
 =============================================================================
